@@ -144,7 +144,10 @@ class Ext:
                attribute assignments: effects and re-bindings)
       fact_test f(fn, g, t, env, kt, kf) -> text      (truthiness test of a value whose Ty carries a `fact` attribute:
                a Boolean local holding the outcome of an isinstance test; used by the monadic backend pygal_m.py)
-      raise_   Gallina text of "an exception left the function" for the declared return type"""
+      raise_   Gallina text of "an exception left the function" for the declared return type
+      expr     [srclabels] f(fn, node, env) -> (g, Ty) | None     unit-specific expressions, asked before the built-in cases
+      raise_stmt [srclabels] f(fn, stmt, env)   accepts (returns) or rejects (Unsupported) a `raise` statement of a pure
+               function; the function's value is then raise_"""
 
     def __init__(self, **kw):
         self.calls, self.methods, self.attrs, self.compare, self.truthy = {}, {}, {}, {}, {}
